@@ -31,13 +31,46 @@ def rv(x):
     raise TypeError(f"rv({x!r})")
 
 
+CEIL = z3.Function("CEIL", R, R); CEILI = z3.Function("CEILI", R, I)
+FLOOR = z3.Function("FLOOR", R, R); FLOORI = z3.Function("FLOORI", R, I)
+
+
 def ceil_r(x):
-    """mathematical ceiling of a Real term, as Real"""
-    return z3.ToReal(-z3.ToInt(-x))
+    """mathematical ceiling of a Real term, as Real.  Encoded as an uninterpreted function whose defining facts
+    (integrality, x <= CEIL(x) < x+1) are added for every application at solve time (engine.define_rounding): the
+    solvers then use congruence instead of to_int reasoning, which they handle badly together with UF."""
+    return CEIL(x)
 
 
 def floor_r(x):
-    return z3.ToReal(z3.ToInt(x))
+    return FLOOR(x)
+
+
+def floor_i(x): return FLOORI(x)
+def ceil_i(x): return CEILI(x)
+
+
+def rounding_facts(formulas):
+    """definitional facts for every CEIL/FLOOR application occurring in `formulas`"""
+    seen, out, todo = set(), [], list(formulas)
+    while todo:
+        e = todo.pop()
+        if not z3.is_expr(e): continue
+        k = e.get_id()
+        if k in seen: continue
+        seen.add(k)
+        if z3.is_app(e):
+            d = e.decl()
+            if d.eq(CEIL) or d.eq(CEILI):
+                a = e.arg(0); c = CEIL(a)
+                out += [c == z3.ToReal(CEILI(a)), c >= a, c < a + 1]
+            elif d.eq(FLOOR) or d.eq(FLOORI):
+                a = e.arg(0); c = FLOOR(a)
+                out += [c == z3.ToReal(FLOORI(a)), c <= a, c > a - 1]
+            todo.extend(e.children())
+        elif z3.is_quantifier(e):
+            todo.append(e.body())
+    return out
 
 
 # ------------------------------------------------------------------------------------------------ units
@@ -175,6 +208,12 @@ class ExplU:
     def __init__(self, is_empty, nonempty: Expl, empty: Expl | None = None):
         self.is_empty, self.nonempty = is_empty, nonempty
         self.empty = empty
+
+
+class Opt:
+    """None-or-value decided by a z3 Bool (accumulators initialised to None)"""
+    def __init__(self, is_none, value):
+        self.is_none, self.value = is_none, value
 
 
 class ModelObj:
